@@ -91,6 +91,18 @@ pub fn check_enc(c: &EncCase) -> Verdict {
     if !changed {
         return edit_class(Verdict::pass().class("no-protected-change"), &c.edit);
     }
+    // the other entry point: the same altered table inside an intact BLTE container (one 'N' chunk,
+    // framed by the harness; the container's own integrity says nothing about the table)
+    if inconsistent {
+        let mut blte = b"BLTE\0\0\0\0N".to_vec();
+        blte.extend_from_slice(&m);
+        if EncodingFile::parse_blte(&blte).is_ok() {
+            return Verdict::fail(
+                if c.region == EncRegion::Pages { "C07:encoding:parse_blte-accepts-altered-page" } else { "C07:encoding:parse_blte-accepts-page-not-matching-altered-stored-checksum" },
+                format!("{}: {:?} inside {:?}: EncodingFile::parse_blte returned Ok for the altered table in an intact BLTE container although a page does not hash (MD5) to its stored checksum", c.art, c.edit, c.region),
+            );
+        }
+    }
     match EncodingFile::parse(&m) {
         Err(e) => edit_class(
             Verdict::pass().nontrivial(true).class(if matches!(e, EncodingError::ChecksumMismatch) { "rejected:checksum-mismatch" } else { "rejected:other-error" }),
